@@ -6,6 +6,7 @@ import (
 	"math/rand"
 	"os"
 	"strconv"
+	"syscall"
 
 	"verif/harness/fsrep"
 )
@@ -23,6 +24,8 @@ func init() {
 			fmt.Fprintln(os.Stderr, err)
 			return 2
 		}
+		// the configured mode is the mode of the files whatever the process umask is
+		syscall.Umask(0o027)
 		rep, err := fsrep.Run(&cfg, *edges, *par)
 		if err != nil {
 			fmt.Fprintln(os.Stderr, "replay:", err)
